@@ -289,7 +289,8 @@ class Sim(object):
             return
         n_oth = len(others) if others else 0
         if n_oth:
-            c = self.tape.choose(1 + n_oth, 'sched')
+            c = self.tape.choose(1 + n_oth, 'sched',
+                                 [me.tid] + [t.tid for t in others])
             if c:
                 target = others[c - 1]
                 self.stat('preempt')
@@ -337,7 +338,8 @@ class Sim(object):
             self._wake_blocked()
             runnable = [t for t in self.threads if t.state == RUNNABLE]
             if runnable:
-                c = self.tape.choose(len(runnable), 'sched') \
+                c = self.tape.choose(len(runnable), 'sched',
+                                     [t.tid for t in runnable]) \
                     if len(runnable) > 1 else 0
                 target = runnable[c]
                 if target is me:
